@@ -171,6 +171,8 @@ func c02Atoms() []c02Atom {
 	out = append(out, c02Atom{gen.In(K(), gen.Call("lower", gen.Str("B")), gen.Str("c")), "opaque", false})
 	out = append(out, c02Atom{gen.In(K(), gen.Str("c"), gen.Bin("+", gen.Str("a"), gen.Str("b")), gen.Str("zz")), "opaque", false})
 	out = append(out, c02Atom{gen.In(K(), gen.Str("b"), gen.Str("zz"), gen.Str("ab")), "mget", false})
+	// listed keys that are not stored, sorting before stored ones (point reads that find nothing first)
+	out = append(out, c02Atom{gen.In(K(), gen.Str("c"), gen.Str("aaaa"), gen.Str("b"), gen.Str("aaab")), "mget", false})
 	// specials around the empty literal
 	out = append(out, c02Atom{gen.Bin(">=", K(), gen.Str("")), "opaque", true})
 	out = append(out, c02Atom{gen.Bin("<=", K(), gen.Str("")), "le", true})
